@@ -698,7 +698,7 @@ func checkInheritance(c *Ctx, r *Report) {
 		viol := ""
 		var sites []string
 		found := false
-		ast.Inspect(fi.Decl, func(n ast.Node) bool {
+		w.inspectRegion(fi, func(n ast.Node) bool {
 			if se, ok := n.(*ast.SelectorExpr); ok {
 				if qualField(fi.Pkg.TypesInfo, se) == "definitions.OpenAPIGeneratorConfig.DefaultRouteSecurity" {
 					found = true
